@@ -674,6 +674,27 @@ func RuleK4(c *Ctx) {
 
 // k4Reversal: the bytes handed to big.Int.SetBytes are the input with positions i and len-1-i swapped over the whole length.
 func (c *Ctx) k4Reversal(fn *ssa.Function, name string) {
+	// the reversal may live in the decoder itself or in a helper of the same package it delegates to
+	cands := []*ssa.Function{fn}
+	for _, ci := range core.CallsIn(fn) {
+		if f := core.Callee(ci.Common()); f != nil && f.Pkg == fn.Pkg && len(f.Blocks) > 0 && c.P.Decl(f) != nil {
+			for _, a := range ci.Common().Args {
+				if derivesFromParam(a, "e") {
+					cands = append(cands, f)
+				}
+			}
+		}
+	}
+	for _, cand := range cands {
+		if ok, detail, okFlow := c.k4ReversalIn(cand); ok {
+			c.Check(okFlow, "K4", "fr.Element."+name+":byte-reversal", fn.Pos(), "the reversed bytes are not what is parsed", detail+" (in "+cand.Name()+")", "parsed by big.Int.SetBytes (big-endian)")
+			return
+		}
+	}
+	c.Und("K4", "fr.Element."+name+":byte-reversal", fn.Pos(), "the byte reversal is not the recognised full-length two-pointer swap (neither in the decoder nor in a helper it hands its input to); cannot decide that little-endian decoding is big-endian decoding of the reversed input")
+}
+
+func (c *Ctx) k4ReversalIn(fn *ssa.Function) (bool, string, bool) {
 	fd := c.P.Decl(fn)
 	info := c.P.Info(fn)
 	ok := false
@@ -694,6 +715,32 @@ func (c *Ctx) k4Reversal(fn *ssa.Function, name string) {
 		z := bigOf(info, init.Rhs[0])
 		hi := types.ExprString(init.Rhs[1])
 		swap, isSwap := fs.Body.List[0].(*ast.AssignStmt)
+		// second accepted idiom: copy-reverse  for i, j := 0, len(src)-1; j >= 0; i, j = i+1, j-1 { dst[i] = src[j] }
+		if isSwap && len(swap.Lhs) == 1 && len(swap.Rhs) == 1 {
+			dl, okL := swap.Lhs[0].(*ast.IndexExpr)
+			sr, okR := swap.Rhs[0].(*ast.IndexExpr)
+			if okL && okR && types.ExprString(dl.Index) == i && types.ExprString(sr.Index) == j {
+				src := types.ExprString(sr.X)
+				zeroK := bigOf(info, cond.Y)
+				goodC := z != nil && z.Sign() == 0 && hi == "len("+src+") - 1" && cond.Op == token.GEQ && types.ExprString(cond.X) == j && zeroK != nil && zeroK.Sign() == 0 &&
+					types.ExprString(post.Rhs[0]) == i+" + 1" && types.ExprString(post.Rhs[1]) == j+" - 1"
+				// dst := make([]byte, len(src))
+				dstOK := false
+				ast.Inspect(fd.Body, func(y ast.Node) bool {
+					if as, isAs := y.(*ast.AssignStmt); isAs && len(as.Lhs) == 1 && len(as.Rhs) == 1 && types.ExprString(as.Lhs[0]) == types.ExprString(dl.X) {
+						if types.ExprString(as.Rhs[0]) == "make([]byte, len("+src+"))" {
+							dstOK = true
+						}
+					}
+					return true
+				})
+				if goodC && dstOK {
+					ok = true
+					detail = "full-length reversed copy of " + src + " into " + types.ExprString(dl.X)
+				}
+			}
+			return true
+		}
 		if !isSwap || len(swap.Lhs) != 2 || len(swap.Rhs) != 2 {
 			return true
 		}
@@ -716,14 +763,22 @@ func (c *Ctx) k4Reversal(fn *ssa.Function, name string) {
 		}
 		return true
 	})
-	// and the reversed buffer is what big.Int.SetBytes receives, and it derives from the parameter
+	// and the reversed buffer is what big.Int.SetBytes receives, and it derives from a parameter
 	sb := findCalls(fn, staticIs("math/big", "Int", "SetBytes"))
-	okFlow := len(sb) == 1 && derivesFromParam(sb[0].Common().Args[1], "e")
-	if !ok {
-		c.Und("K4", "fr.Element."+name+":byte-reversal", fn.Pos(), "the byte reversal is not the recognised full-length two-pointer swap; cannot decide that little-endian decoding is big-endian decoding of the reversed input")
-		return
+	okFlow := false
+	if len(sb) == 1 {
+		for _, p := range fn.Params {
+			if derivesFromParam(sb[0].Common().Args[1], p.Name()) {
+				okFlow = true
+			}
+		}
+		if strings.HasPrefix(detail, "full-length reversed copy") {
+			if _, isMake := sb[0].Common().Args[1].(*ssa.MakeSlice); isMake {
+				okFlow = true
+			}
+		}
 	}
-	c.Check(okFlow, "K4", "fr.Element."+name+":byte-reversal", fn.Pos(), "the reversed bytes are not what is parsed", detail, "parsed by big.Int.SetBytes (big-endian)")
+	return ok, detail, okFlow
 }
 
 // ---------------------------------------------------------------------------
